@@ -20,6 +20,7 @@ class GetterProfile(StoreProfile):
 
     def params(self, rng, tier):
         p = super().params(rng, tier)
+        p["crowd"] = rng.random() < 0.1
         p["n_entities"] = rng.randint(2, 9 if tier == "quick" else 14)
         p["n_ops"] = rng.randint(6, 14 if tier == "quick" else 36)
         p["capacity"] = rng.choice([4096, 4096, 64, 8])
@@ -68,7 +69,7 @@ class GetterProfile(StoreProfile):
                     return {"op": "write", "cfg": cfg, "sid": s, "how": how, "data": data}
                 run.scratch.setdefault("queue", []).extend([{"op": "write", "cfg": cfg, "sid": s, "how": how, "data": data}, dict(g)])
                 return dict(g)
-            return {"op": "write", "cfg": cfg, "sid": s, "how": how, "data": gen_data(rng, nmax=2)}
+            return {"op": "write", "cfg": cfg, "sid": s, "how": how, "data": gen_data(rng, nmax=2, big=rng.random() < 0.05)}
         base = rng.choice(ents)
         if rng.random() < 0.1:
             base = gen_sid(rng, m, self.vocab(run), m.natural_type(base), run.scratch.get("value_pool"), reuse=0.7) or base
